@@ -1,3 +1,279 @@
-//! C02 — not built yet.
-use crate::run::Run;
-pub fn run(_run: &Run) { eprintln!("C02: check not built yet"); std::process::exit(2); }
+//! C02 — the newest cross-reference entry for an object always wins.
+use crate::casecheck::check_case;
+use crate::doc::{root_kind, CFGS};
+use crate::mkpdf::{self, dict, name, rf, Obj, W};
+use crate::panicmon::guard;
+use crate::par::par_for;
+use crate::rng::{fnv, Rng};
+use crate::run::{show, Run};
+use crate::tape::Src;
+use crate::with_file;
+use pdf::object::{PlainRef, Resolve};
+use pdf::primitive::Primitive;
+use serde_json::{json, Value};
+use std::collections::BTreeMap;
+
+#[derive(Clone, Copy, Debug, PartialEq, Eq)]
+enum Mention { Direct, Compressed, Free }
+#[derive(Clone, Debug)]
+struct SecPlan { stream_format: bool, mentions: Vec<(u32, Mention)>, split: bool, filter: u8, new_root: bool, grow: u32 }
+#[derive(Clone, Debug)]
+struct Plan { n_objs: u32, sections: Vec<SecPlan> }
+
+#[derive(Clone, Copy, Debug, PartialEq)]
+enum State { Undefined, Value { rev: u32, gen: u16 }, Free { gen: u16 } }
+
+struct Built { bytes: Vec<u8>, model: BTreeMap<u32, State>, size: u32, root: u32, id0: Vec<u8>, info_title: String, prev: Option<usize>, labels: Vec<String>, mentions_per_obj: usize }
+
+fn tracked(n: u32, rev: u32, extra: Option<Obj>) -> Obj {
+    let mut items = vec![("N", Obj::Int(n as i64)), ("Rev", Obj::Int(rev as i64)), ("Tag", mkpdf::st(&format!("obj {} written by section {}", n, rev)))];
+    if let Some(Obj::Dict(d)) = extra { let mut o = dict(items); if let Obj::Dict(ref mut dd) = o { for (k, v) in d { dd.insert(0, (k, v)); } } return o; }
+    dict(items.drain(..).collect())
+}
+
+/// Build the file for a plan. Object 1 = catalog, 2 = page tree root (both may be rewritten by updates);
+/// tracked objects 3..=n_objs; helper objects (object streams, xref streams, new catalogs, info dicts) get fresh numbers.
+fn build(plan: &Plan) -> Built {
+    let mut w = W::new(b"", "1.6");
+    let mut state: BTreeMap<u32, State> = BTreeMap::new();
+    let mut next_free_nr = plan.n_objs + 1;
+    let mut root = 1u32;
+    let mut size = 0u32;
+    let mut labels: Vec<String> = Vec::new();
+    let mut last_trailer = (Vec::new(), String::new());
+    let mut hist: BTreeMap<u32, Vec<(Mention, bool)>> = BTreeMap::new();
+    for (si, sec) in plan.sections.iter().enumerate() {
+        let rev = si as u32;
+        let mut members: Vec<(u32, Obj)> = Vec::new();
+        let mut free_changed = si == 0;
+        let mut mentions = sec.mentions.clone();
+        if si == 0 {
+            // the base section defines catalog and page tree
+            mentions.retain(|(k, m)| !(*k <= 2 && *m == Mention::Free));
+            for n in [1u32, 2] { if !mentions.iter().any(|(k, _)| *k == n) { mentions.push((n, Mention::Direct)); } }
+        }
+        for (n, m) in mentions {
+            let cur = *state.get(&n).unwrap_or(&State::Undefined);
+            let body = |n: u32| -> Obj {
+                match n {
+                    1 => tracked(1, rev, Some(dict(vec![("Type", name("Catalog")), ("Pages", rf(2))]))),
+                    2 => tracked(2, rev, Some(dict(vec![("Type", name("Pages")), ("Count", Obj::Int(0)), ("Kids", Obj::Arr(vec![]))]))),
+                    _ => tracked(n, rev, None),
+                }
+            };
+            match (m, cur) {
+                (Mention::Free, State::Value { gen, .. }) if n > 2 => {
+                    state.insert(n, State::Free { gen: gen + 1 }); free_changed = true;
+                    hist.entry(n).or_default().push((m, sec.stream_format));
+                }
+                (Mention::Free, State::Undefined) if si == 0 && n > 2 => {
+                    // a never-used number listed as free in the base table
+                    state.insert(n, State::Free { gen: 0 }); free_changed = true;
+                    hist.entry(n).or_default().push((m, sec.stream_format));
+                }
+                (Mention::Free, _) => {}
+                (Mention::Compressed, State::Undefined) | (Mention::Compressed, State::Value { gen: 0, .. }) if sec.stream_format => {
+                    members.push((n, body(n)));
+                    state.insert(n, State::Value { rev, gen: 0 });
+                    hist.entry(n).or_default().push((m, true));
+                }
+                (Mention::Compressed, _) | (Mention::Direct, _) => {
+                    let gen = match cur { State::Value { gen, .. } => gen, State::Free { gen } => { free_changed = true; gen }, State::Undefined => 0 };
+                    w.obj(n, gen, &body(n));
+                    state.insert(n, State::Value { rev, gen });
+                    hist.entry(n).or_default().push((Mention::Direct, sec.stream_format));
+                }
+            }
+        }
+        if !members.is_empty() {
+            let stm = next_free_nr; next_free_nr += 1;
+            let enc: &dyn Fn(&[u8]) -> (Vec<(Vec<u8>, Obj)>, Vec<u8>) = match sec.filter { 0 => &mkpdf::no_filter, _ => &mkpdf::flate_filter };
+            w.objstm(stm, &members, b"\n", 0, enc);
+            state.insert(stm, State::Value { rev: 1000 + rev, gen: 0 });
+        }
+        if sec.new_root && si > 0 {
+            let nr = next_free_nr; next_free_nr += 1;
+            w.obj(nr, 0, &tracked(nr, rev, Some(dict(vec![("Type", name("Catalog")), ("Pages", rf(2))]))));
+            state.insert(nr, State::Value { rev, gen: 0 });
+            root = nr;
+        }
+        // info dictionary of this section
+        let info_nr = next_free_nr; next_free_nr += 1;
+        let title = format!("info of section {}", si);
+        w.obj(info_nr, 0, &dict(vec![("Title", mkpdf::st(&title))]));
+        state.insert(info_nr, State::Value { rev: 2000 + rev, gen: 0 });
+        if free_changed {
+            // re-emit the free list: head 0 -> ascending free numbers -> 0
+            let frees: Vec<(u32, u16)> = state.iter().filter_map(|(n, s)| if let State::Free { gen } = s { Some((*n, *gen)) } else { None }).collect();
+            let first = frees.first().map(|f| f.0).unwrap_or(0);
+            w.free(0, first, 65535);
+            for (i, (n, gen)) in frees.iter().enumerate() { w.free(*n, frees.get(i + 1).map(|f| f.0).unwrap_or(0), *gen); }
+        }
+        let xref_nr = if sec.stream_format { let n = next_free_nr; next_free_nr += 1; Some(n) } else { None };
+        size = size.max(next_free_nr) + sec.grow;
+        next_free_nr = next_free_nr.max(size - sec.grow); // numbers in the slack stay undefined
+        let id0 = format!("id-{}-{}", si, plan.n_objs).into_bytes();
+        let tr: Vec<(Vec<u8>, Obj)> = vec![(b"Root".to_vec(), rf(root)), (b"Info".to_vec(), rf(info_nr)),
+            (b"ID".to_vec(), Obj::Arr(vec![Obj::Str(id0.clone()), Obj::Str(b"second".to_vec())]))];
+        let split: Vec<u32> = if sec.split { w.pending.keys().cloned().filter(|k| k % 2 == 1).collect() } else { vec![] };
+        match xref_nr {
+            Some(nr) => {
+                let enc: &dyn Fn(&[u8]) -> (Vec<(Vec<u8>, Obj)>, Vec<u8>) = match sec.filter { 2 => &mkpdf::no_filter, _ => &mkpdf::flate_filter };
+                w.xref_stream(nr, tr, size, &split, enc);
+                state.insert(nr, State::Value { rev: 3000 + rev, gen: 0 });
+            }
+            None => { w.xref_table(tr, size, &split); }
+        }
+        last_trailer = (id0, title);
+    }
+    // labels: per object with >= 2 mentions, the newest transition
+    let mut multi = 0;
+    for (_, h) in hist.iter() {
+        if h.len() >= 2 {
+            multi += 1;
+            let (m_new, f_new) = h[h.len() - 1];
+            let (m_old, f_old) = h[h.len() - 2];
+            labels.push(format!("{:?}@{}<-{:?}@{}", m_new, if f_new { "stream" } else { "table" }, m_old, if f_old { "stream" } else { "table" }));
+        }
+    }
+    labels.sort(); labels.dedup();
+    let prev = if plan.sections.len() > 1 { Some(0) } else { None };
+    Built { bytes: w.buf, model: state, size, root, id0: last_trailer.0, info_title: last_trailer.1, prev, labels, mentions_per_obj: multi }
+}
+
+fn gen_plan(s: &mut Src, max_objs: u32, max_updates: u32) -> Plan {
+    let n_objs = 3 + s.draw(max_objs - 2);
+    let n_sec = 1 + s.draw(max_updates + 1);
+    let mut sections = Vec::new();
+    for si in 0..n_sec {
+        let stream_format = s.draw(2) == 1;
+        let mut mentions = Vec::new();
+        for n in 1..=n_objs {
+            let p = if si == 0 { 4 } else { 2 };
+            if s.draw(5) < p {
+                let m = match s.draw(6) { 0 | 1 => Mention::Compressed, 2 => Mention::Free, _ => Mention::Direct };
+                mentions.push((n, m));
+            }
+        }
+        // random order inside the section
+        for i in (1..mentions.len()).rev() { let j = s.draw(i as u32 + 1) as usize; mentions.swap(i, j); }
+        sections.push(SecPlan { stream_format, mentions, split: s.draw(3) == 0, filter: s.draw(3) as u8, new_root: s.draw(6) == 0, grow: if s.draw(4) == 0 { 1 + s.draw(3) } else { 0 } });
+    }
+    Plan { n_objs, sections }
+}
+
+fn err_line(e: &pdf::PdfError) -> String { format!("{}", crate::doc::root_cause(e)).lines().next().unwrap_or("").chars().take(90).collect() }
+
+fn oracle(plan: &Plan) -> Option<(String, String)> {
+    let b = build(plan);
+    for cfg in CFGS {
+        let r = guard(|| -> Option<(String, String)> { with_file!(b.bytes.clone(), cfg, b"", |f| {
+            let f = match f { Ok(f) => f, Err(e) => return Some(("load-error".into(), format!("{}: {}", root_kind(&e), err_line(&e)))) };
+            let res = f.resolver();
+            for n in 0..b.size + 3 {
+                let st = *b.model.get(&n).unwrap_or(&State::Undefined);
+                let gen = match st { State::Value { gen, .. } | State::Free { gen } => gen as u64, _ => 0 };
+                let got = res.resolve(PlainRef { id: n as u64, gen });
+                match (st, got) {
+                    (State::Value { rev, .. }, Ok(p)) => {
+                        if rev >= 1000 { continue; } // helper objects (object/xref streams, info): only that they resolve
+                        let d = match &p { Primitive::Dictionary(d) => d, Primitive::Stream(s) => &s.info, _ => return Some(("wrong-value".into(), format!("object {} is not a dictionary", n))) };
+                        let (gn, gr) = (d.get("N").and_then(|x| x.as_integer().ok()), d.get("Rev").and_then(|x| x.as_integer().ok()));
+                        if gn != Some(n as i32) { return Some(("wrong-value".into(), format!("object {}: /N is {:?}", n, gn))); }
+                        if gr != Some(rev as i32) {
+                            let cls = if gr.map(|g| (g as u32) < rev).unwrap_or(false) { "stale-value" } else { "wrong-value" };
+                            return Some((cls.into(), format!("object {}: newest section {} but /Rev {:?} was returned", n, rev, gr)));
+                        }
+                    }
+                    (State::Value { rev, .. }, Err(e)) => return Some(("error-instead-of-value".into(), format!("object {} (section {}): {}: {}", n, rev, root_kind(&e), err_line(&e)))),
+                    (_, Ok(p)) => {
+                        let rev = match &p { Primitive::Dictionary(d) => d.get("Rev").and_then(|x| x.as_integer().ok()), _ => None };
+                        return Some(("value-instead-of-error".into(), format!("object {} is {:?} in the newest mention but resolve returned a value (/Rev {:?})", n, st, rev)));
+                    }
+                    (_, Err(e)) => {
+                        let k = root_kind(&e);
+                        if !["FreeObject", "NullRef", "UnspecifiedXRefEntry"].contains(&k.as_str()) {
+                            return Some(("wrong-error-kind".into(), format!("object {} ({:?}): {}: {}", n, st, k, err_line(&e))));
+                        }
+                    }
+                }
+            }
+            // trailer of the newest section
+            let t = &f.trailer;
+            if t.root.get_ref().get_inner().id != b.root as u64 { return Some(("wrong-trailer".into(), format!("trailer root is {} expected {}", t.root.get_ref().get_inner().id, b.root))); }
+            if t.size != b.size as i32 { return Some(("wrong-trailer".into(), format!("trailer size {} expected {}", t.size, b.size))); }
+            if t.id.get(0).map(|s| s.as_bytes().to_vec()) != Some(b.id0.clone()) { return Some(("wrong-trailer".into(), "trailer /ID is not the newest section's".into())); }
+            match &t.info_dict { Some(i) if i.title.as_ref().map(|s| s.to_string_lossy()) == Some(b.info_title.clone()) => {}, _ => return Some(("wrong-trailer".into(), "trailer /Info is not the newest section's".into())) }
+            if t.prev_trailer_pos.is_some() != b.prev.is_some() { return Some(("wrong-trailer".into(), format!("trailer /Prev {:?}", t.prev_trailer_pos))); }
+            None
+        }) });
+        match r {
+            Ok(None) => {}
+            Ok(Some((c, d))) => return Some((c, format!("[{}] {}", cfg.name(), d))),
+            Err(p) => return Some((p.signature(), p.describe())),
+        }
+    }
+    None
+}
+
+fn witness(plan: &Plan) -> Value {
+    let b = build(plan);
+    json!({"plan": format!("{:?}", plan), "transitions": b.labels, "file": show(&b.bytes[..b.bytes.len().min(3000)])})
+}
+
+/// like check_case but the signature uses the transition labels of the shrunk plan
+fn check_plan(run: &Run, s: Src, max_objs: u32, max_updates: u32, sample: bool) {
+    let gen = move |s: &mut Src| { let p = gen_plan(s, max_objs, max_updates); let b = build(&p); for l in b.labels { s.label(Box::leak(l.into_boxed_str())); } p };
+    check_case(run, "C02", "history", s, &gen, &oracle, &witness, &|p, _| {
+        let b = build(p);
+        run.nontrivial(fnv(&b.bytes));
+        if b.mentions_per_obj > 0 { run.count("histories_with_object_mentioned_by_>=2_sections"); }
+        for l in &b.labels { run.count(&format!("transition:{}", l)); }
+        run.count(&format!("sections:{}", p.sections.len()));
+        if sample { run.sample(json!({"plan": format!("{:?}", p), "transitions": b.labels})); }
+    });
+}
+
+fn exhaustive(run: &Run, n_sections: usize) {
+    // 2 tracked objects (3 and 4) x n sections x {absent, direct, compressed, free} x 2 formats
+    let opts = [None, Some(Mention::Direct), Some(Mention::Compressed), Some(Mention::Free)];
+    let per_sec = 2 * 4 * 4; // format x obj3 x obj4
+    let total = (per_sec as u64).pow(n_sections as u32);
+    par_for(total, |mut code| {
+        let mut sections = Vec::new();
+        for _ in 0..n_sections {
+            let c = code % per_sec as u64; code /= per_sec as u64;
+            let stream_format = c % 2 == 1;
+            let (a, b) = (opts[((c / 2) % 4) as usize], opts[((c / 8) % 4) as usize]);
+            let mut mentions = Vec::new();
+            if let Some(m) = a { mentions.push((3, m)); }
+            if let Some(m) = b { mentions.push((4, m)); }
+            sections.push(SecPlan { stream_format, mentions, split: false, filter: 0, new_root: false, grow: 0 });
+        }
+        let plan = Plan { n_objs: 4, sections };
+        // well-formedness: skip plans whose mentions would be dropped by build (compressed in a table section)
+        if plan.sections.iter().any(|s| !s.stream_format && s.mentions.iter().any(|(_, m)| *m == Mention::Compressed)) { return; }
+        run.eval();
+        let b = build(&plan);
+        run.nontrivial(fnv(&b.bytes));
+        for l in &b.labels { run.count(&format!("transition:{}", l)); }
+        if let Some((cls, detail)) = oracle(&plan) {
+            let sig = format!("C02|history|{}|{}", b.labels.join("+"), cls);
+            run.violation(&sig, &detail, witness(&plan));
+        }
+    });
+    run.exhaustive(&format!("2 tracked objects x {} sections x {{absent, direct, compressed, free}} x {{table, stream}} (well-formed subset)", n_sections), true);
+}
+
+pub fn run(run: &Run) {
+    run.rule("update histories: base + 0-4 incremental sections, each a classic table or xref stream, mentioning objects as direct / compressed (fresh object stream, optional Flate) / free with spec-conformant generation numbers, free list, subsection splitting, /Size growth, changing /Root, per-section /ID and /Info; every written value carries (/N, /Rev) so a read identifies the write; model = replay oldest→newest; all object numbers 0..Size+2 resolved in 4 configurations; trailer compared with the newest section. distinct_nontrivial = distinct files; transition counters show which (newer<-older) storage pairs occurred");
+    run.assume("generated files are well-formed incremental updates (mkpdf); free entries of helper numbers and the free-list links follow ISO 32000-1 7.5.4");
+    exhaustive(run, 2);
+    if !run.quick() { exhaustive(run, 3); }
+    let n = run.n(40_000, 600_000);
+    let (mo, mu) = if run.quick() { (10, 3) } else { (22, 3) };
+    par_for(n, |i| {
+        run.eval();
+        check_plan(run, Src::fresh(Rng::derive(run.seed, 2, i)), mo, mu, i < 5);
+    });
+}
